@@ -208,9 +208,9 @@ CATALOGUE['C04'] = [
     'shout': capitalize_all,""", 'C04.R1',
       extra=[('special_formats = {', _CAPALL)]),
     V('new taint-unaware modifier', 'DT_Var.py',
-      """    thousands_commas, sql_quote, url_unquote, url_unquote_plus,
+      """    thousands_commas, sql_quote,
 )""",
-      """    thousands_commas, sql_quote, url_unquote, url_unquote_plus,
+      """    thousands_commas, sql_quote,
     capitalize_all,
 )""", 'C04.R1', extra=[('special_formats = {', _CAPALL)]),
     V('newline_to_br does not pre-quote', 'DT_Var.py',
@@ -1095,4 +1095,98 @@ CATALOGUE['C13'] = [
         for client in sequence:
             k = None
             unused = k"""),
+]
+
+# --------------------------------------------------------------------- C15
+CATALOGUE['C15'] = [
+    V('duplicate table entry (the repaired defect)', 'DT_Var.py',
+      """    thousands_commas, sql_quote,
+)""",
+      """    thousands_commas, sql_quote, url_unquote,
+)""", 'C15.R1'),
+    V('modifier function renamed', 'DT_Var.py',
+      "def spacify(val):", "def spacify_(val):", 'C15.R2',
+      extra=[("    lower, upper, capitalize, spacify,",
+              "    lower, upper, capitalize, spacify_,")]),
+    V('option accepted without modifier', 'DT_Var.py',
+      "                            newline_to_br=1, url=1)",
+      "                            newline_to_br=1, url=1, title=1)",
+      'C15.R2'),
+    V('modifier removed from the table', 'DT_Var.py',
+      "    lower, upper, capitalize, spacify,",
+      "    lower, upper, capitalize,", 'C15.R2'),
+    V('modifiers applied in written order', 'DT_Var.py',
+      """        self.modifiers = tuple(
+            map(lambda t: t[1],
+                filter(lambda m, args=args, used=args.__contains__:
+                       used(m[0]) and args[m[0]],
+                       modifiers)))""",
+      """        table = dict(modifiers)
+        self.modifiers = tuple(
+            table[a] for a in args if a in table and args[a])""",
+      'C15.R3'),
+    V('size before the modifiers', 'DT_Var.py',
+      """        # next, look for upper, lower, etc
+        for f in self.modifiers:
+            if f.__name__ == 'html_quote' and isinstance(val, TaintedString):
+                # TaintedStrings will be quoted by default, don't double quote.
+                continue
+            val = f(val)
+
+""", "", 'C15.R4',
+      extra=[("""        if isinstance(val, TaintedString):
+            val = val.quoted()
+
+        return val""", """        for f in self.modifiers:
+            if f.__name__ == 'html_quote' and isinstance(val, TaintedString):
+                continue
+            val = f(val)
+
+        if isinstance(val, TaintedString):
+            val = val.quoted()
+
+        return val""")]),
+    V('upper calls lower', 'DT_Var.py',
+      "def upper(val):\n    return val.upper()",
+      "def upper(val):\n    return val.lower()", 'C15.R5'),
+    V('url_unquote_plus uses unquote', 'DT_Var.py',
+      "    v = urllib.parse.unquote_plus(str(v))",
+      "    v = urllib.parse.unquote(str(v))", 'C15.R5'),
+    V('sql_quote keeps CR', 'DT_Var.py',
+      "    for char in ('\\x00', '\\x1a', '\\r'):",
+      "    for char in ('\\x00', '\\x1a'):", 'C15.R5'),
+    V('sql_quote does not double quotes', 'DT_Var.py',
+      "        v = v.replace(char, char * 2)",
+      "        v = v.replace(char, char)", 'C15.R5'),
+    V('url-quote alias points to quote_plus', 'DT_Var.py',
+      "    'url-quote': url_quote,", "    'url-quote': url_quote_plus,",
+      'C15.R5'),
+    V('fmt twins diverge', 'DT_Var.py',
+      """                elif fmt == '':
+                    val = ''
+                else:
+                    if isinstance(val, TaintedString):
+                        val = TaintedString(fmt % val)
+                    else:
+                        val = fmt % val
+
+        # finally""",
+      """                elif fmt == '':
+                    val = ' '
+                else:
+                    if isinstance(val, TaintedString):
+                        val = TaintedString(fmt % val)
+                    else:
+                        val = fmt % val
+
+        # finally""", 'C15.R5'),
+    # silent
+    V('silent: comprehension over the table', 'DT_Var.py',
+      """        self.modifiers = tuple(
+            map(lambda t: t[1],
+                filter(lambda m, args=args, used=args.__contains__:
+                       used(m[0]) and args[m[0]],
+                       modifiers)))""",
+      """        self.modifiers = tuple(
+            f for n, f in modifiers if n in args and args[n])"""),
 ]
